@@ -669,12 +669,19 @@ func loadSource(v ssa.Value) ssa.Value {
 	if !ok {
 		return nil
 	}
-	instrs := u.Block().Instrs
+	b := u.Block()
 	idx := instrIndex(u)
-	for k := idx - 1; k >= 0; k-- {
-		if st, ok := instrs[k].(*ssa.Store); ok && st.Addr == a {
-			return st.Val
+	for hops := 0; hops < 6; hops++ {
+		for k := idx - 1; k >= 0; k-- {
+			if st, ok := b.Instrs[k].(*ssa.Store); ok && st.Addr == a {
+				return st.Val
+			}
 		}
+		if len(b.Preds) != 1 {
+			return nil
+		}
+		b = b.Preds[0]
+		idx = len(b.Instrs)
 	}
 	return nil
 }
